@@ -162,6 +162,16 @@ def build_scenarios(T, base, tier, serial_T=None):
     S.append(Scn("tar2sqfs-pax-xattr-sparse", "tar2sqfs", T, os.path.join(base, "s12"), prep_pax,
                  lambda b, out: [T["tar2sqfs"], "-q", "-b", "4096", "-j", "1", "-c", "gzip", out], "image", packer=True, stdin_file=lambda b: os.path.join(b, "in.tar")))
 
+    # S12b: an archive larger than the 128 KiB stream buffer whose first member ends exactly at the buffer boundary: the next read() is issued by the
+    #       header reader with nothing handed out yet (an error there must not be mistaken for the end of the archive)
+    def prep_bigtar(b):
+        TE = tarcases.E
+        ents = [TE(b"a_big.bin", "file", content=content_pattern("big", 131072 - 512)), TE(b"b_small.txt", "file", content=b"second member\n"),
+                TE(b"c_dir", "dir"), TE(b"c_dir/c_small.txt", "file", content=content_pattern("c", 700))]
+        open(os.path.join(b, "in.tar"), "wb").write(tarmk.archive(ents, "ustar"))
+    S.append(Scn("tar2sqfs-buffer-boundary", "tar2sqfs", T, os.path.join(base, "s12b"), prep_bigtar,
+                 lambda b, out: [T["tar2sqfs"], "-q", "-b", "131072", "-j", "1", "-c", "lz4", out], "image", packer=True, stdin_file=lambda b: os.path.join(b, "in.tar")))
+
     # S13: rdsquashfs xattr dump and stat (xattr reader, id table)
     S.append(Scn("rdsquashfs-xattr", "rdsquashfs", T, os.path.join(base, "s13"), prep_img,
                  lambda b, out: [T["rdsquashfs"], "-x", "x", os.path.join(b, "img.sqfs")], "stdout"))
